@@ -44,7 +44,7 @@ COMPONENTS = {
 }
 ASSUMPTIONS = ['LMTP is not covered: the library has no LMTP server side to '
                'receive what LmtpRelayClient sends']
-BUDGET = {'quick': 15000, 'thorough': 300000}
+BUDGET = {'quick': 25000, 'thorough': 300000}
 PROBES = ['smtp', 'http', 'null-sender', 'quoted-local-part', 'utf8-address',
           'no-pipelining', 'no-8bitmime', 'no-smtputf8', 'size-advertised',
           'starttls', 'auth', 'helo-fallback', 'connection-reuse',
